@@ -222,6 +222,8 @@ impl EncodingVersion for EncodingVersion1 {
                     return Err(PidNotFound(pid));
                 }
             } else if current_pid_without_flags == pid {
+                // PUSH( ORIGIN=0 ): the member value is aligned relative to its own start
+                deserializer.reader.origin = deserializer.reader.pos;
                 return Ok(length);
             } else {
                 deserializer.reader.seek(length as usize)?;
@@ -287,7 +289,12 @@ impl EncodingVersion for EncodingVersion1 {
         }
         let value_pos = deserializer.reader.pos;
         if length > 0 {
-            deserializer.deserialize_value(member, dynamic_data)?;
+            // PUSH( ORIGIN=0 ): the member value is aligned relative to its own start
+            let orig_origin = deserializer.reader.origin;
+            deserializer.reader.origin = value_pos;
+            let result = deserializer.deserialize_value(member, dynamic_data);
+            deserializer.reader.origin = orig_origin;
+            result?;
         }
         deserializer.reader.pos = value_pos;
         deserializer.reader.seek(length as usize)
@@ -327,6 +334,7 @@ impl EncodingVersion for EncodingVersion1 {
         Self::align(deserializer, 4)?;
         let pid = member.get_id() as u16;
         let orig_pos = deserializer.reader.pos;
+        let orig_origin = deserializer.reader.origin;
         let result = if let Ok(length) = Self::seek_to_pid(deserializer, pid) {
             if length > 0 {
                 deserializer.deserialize_value(member, dynamic_data)
@@ -337,6 +345,7 @@ impl EncodingVersion for EncodingVersion1 {
             Ok(())
         };
         deserializer.reader.pos = orig_pos;
+        deserializer.reader.origin = orig_origin;
         result
 
         // TODO (25) using long PL encoding
@@ -700,7 +709,11 @@ fn is_element_type_kind_primitive(member: &DynamicTypeMember) -> XTypesResult<bo
 impl<'a, E: EndiannessRead, V: EncodingVersion> XTypesDeserializer<'a, E, V> {
     fn new(buffer: &'a [u8], encoding_version: V, endianness: E) -> Self {
         Self {
-            reader: Reader { buffer, pos: 0 },
+            reader: Reader {
+                buffer,
+                pos: 0,
+                origin: 0,
+            },
             _endianness: endianness,
             _encoding_version: encoding_version,
         }
@@ -1344,6 +1357,9 @@ impl AsBytes for char {
 struct Reader<'a> {
     buffer: &'a [u8],
     pos: usize,
+    /// Position the alignment is relative to. The version 1 encoding moves it to the start of
+    /// the value of a parameter list member while that value is read
+    origin: usize,
 }
 
 impl<'a> Reader<'a> {
@@ -1390,7 +1406,8 @@ impl<'a> Reader<'a> {
 
     fn seek_padding(&mut self, alignment: usize) -> XTypesResult<()> {
         let mask = alignment - 1;
-        self.seek(((self.pos + mask) & !mask) - self.pos)
+        let offset = self.pos - self.origin;
+        self.seek(((offset + mask) & !mask) - offset)
     }
 }
 
